@@ -186,6 +186,12 @@ def val_eq(a, b):
     """Python == between two values."""
     if isinstance(a, K) and isinstance(b, K):
         return z3.BoolVal(a.v == b.v)
+    if isinstance(a, PyObj) and isinstance(a.o, tuple) and a.o and a.o[0] == "setlit" and isinstance(b, V):
+        a, b = b, a
+    if isinstance(b, PyObj) and isinstance(b.o, tuple) and b.o and b.o[0] == "setlit" and isinstance(a, V) and isinstance(a.ty, TSet):
+        x = z3.Const(T.fresh_name("qx"), a.ty.elem.sort())
+        items = [coerce(it, a.ty.elem).z for it in b.o[1]]
+        return z3.ForAll([x], z3.Select(a.z, x) == (z3.Or(*[x == it for it in items]) if items else z3.BoolVal(False)))
     if isinstance(a, PyObj) or isinstance(b, PyObj):
         if isinstance(a, PyObj) and isinstance(b, PyObj):
             return z3.BoolVal(a.o == b.o)
